@@ -25,6 +25,14 @@ class Undecided(Exception):
     """machinery could not decide (tool limit, lost anchor, vacuity, ...) -> exit 2"""
 
 
+def write_atomic(path, text):
+    """checks may run concurrently and share build/<unit>/: never let a reader see a half-written file"""
+    tmp = '%s.%d.tmp' % (path, os.getpid())
+    with open(tmp, 'w') as f:
+        f.write(text)
+    os.replace(tmp, path)
+
+
 def cached_verus(cmd, path, cwd):
     """Verus is deterministic for a given input text, command line and version: the result of a run is
     cached under build/cache keyed by sha256(woven text + command).  The woven text is rebuilt from /repo's
@@ -291,7 +299,7 @@ def run_unit(unit, tier='quick', tag='main', solver=None):
                 force[f] = fi['degraded']
         fname = '%s_%s.rs' % (unit, tag)
         path = os.path.join(BUILD, unit, fname)
-        open(path, 'w').write(text)
+        write_atomic(path, text)
         lines, fn_of, blk_of, lab_of, obligations = analyse_woven(text)
 
         # trusted-base scan against the allow-list
@@ -367,7 +375,7 @@ def run_unit(unit, tier='quick', tag='main', solver=None):
             uk, tk, ik = W.build_unit(spec, REPO, CONTRACTS, shims.SHIMS, force, k)
             fk = '%s_%s_v%d.rs' % (unit, tag, k)
             pk = os.path.join(BUILD, unit, fk)
-            open(pk, 'w').write(tk)
+            write_atomic(pk, tk)
             ck = verus_cmd(pk, tier, extra)
             if getattr(u, 'rlimit', None):
                 ck[ck.index('--rlimit') + 1] = u.rlimit
@@ -412,7 +420,7 @@ def run_canary(res, tier):
     unit = res['unit']
     fname = '%s_canary.rs' % unit
     path = os.path.join(BUILD, unit, fname)
-    open(path, 'w').write(ctext)
+    write_atomic(path, ctext)
     ccmd = verus_cmd(path, tier)
     # only the assertion at each function entry matters here; loops are separate queries that would be re-proved
     # at full cost, so give the canary pass a tiny resource limit (loop queries then stop early; their errors are ignored)
